@@ -540,6 +540,62 @@ func runC11(c *Ctx) error {
 			}
 		}
 	}
+	// unsupported / malformed Child SA (ESP) proposals make NewChildSAKeyByProposal fail: one transform at a time is
+	// replaced by an unsupported one, the others stay supported
+	for t := 0; t < c.N(300, 6000); t++ {
+		prop := &message.Proposal{ProtocolID: 3, SPI: []byte{1, 2, 3, 4}}
+		mk := func(ty uint8, id uint16) *message.Transform { return &message.Transform{TransformType: ty, TransformID: id} }
+		klen := uint16(rng.Pick([]int{128, 192, 256}))
+		prop.EncryptionAlgorithm = message.TransformContainer{{TransformType: 1, TransformID: 12, AttributePresent: true, AttributeFormat: 1, AttributeType: 14, AttributeValue: klen}}
+		if rng.Chance(3, 4) {
+			prop.IntegrityAlgorithm = message.TransformContainer{mk(3, uint16(rng.Pick([]int{1, 2, 12})))}
+		}
+		if rng.Chance(1, 2) {
+			prop.DiffieHellmanGroup = message.TransformContainer{mk(4, uint16(rng.Pick([]int{2, 14})))}
+		}
+		prop.ExtendedSequenceNumbers = message.TransformContainer{mk(5, uint16(rng.Intn(2)))}
+		bad := rng.Intn(6)
+		class := "child-unsupported-"
+		switch bad {
+		case 0:
+			prop.IntegrityAlgorithm = message.TransformContainer{mk(3, uint16(rng.Pick([]int{0, 3, 4, 5, 6, 11, 13, 14, 255, 65535})))}
+			class += "integ"
+		case 1:
+			prop.EncryptionAlgorithm[0].TransformID = uint16(rng.Pick([]int{0, 3, 11, 13, 20, 65535}))
+			class += "encr-id"
+		case 2:
+			prop.EncryptionAlgorithm[0].AttributeValue = uint16(rng.Pick([]int{0, 64, 127, 129, 255, 257, 512}))
+			class += "encr-keylen"
+		case 3:
+			prop.DiffieHellmanGroup = message.TransformContainer{mk(4, uint16(rng.Pick([]int{0, 1, 5, 15, 16, 19, 31, 65535})))}
+			class += "dh"
+		case 4:
+			prop.ExtendedSequenceNumbers = message.TransformContainer{mk(5, uint16(rng.Pick([]int{2, 3, 255, 65535})))}
+			class += "esn"
+		case 5:
+			prop.EncryptionAlgorithm[0].AttributeType = uint16(rng.Pick([]int{0, 13, 15, 142, 270}))
+			class += "encr-attrtype"
+		}
+		cs := "(child_of_proposal " + sxProposal(prop).String() + ")"
+		impl := run(func() string {
+			if _, err := security.NewChildSAKeyByProposal(prop); err != nil {
+				return "err"
+			}
+			return "ok"
+		})
+		r.ImplRuns++
+		r.Count(cs, true, class)
+		mo, merr := c.M.Ask(cs)
+		if merr != nil {
+			return merr
+		}
+		if (mo == "err") != (impl == "err") {
+			r.Add(Finding{Kind: "correspondence", What: "NewChildSAKeyByProposal acceptance differs from Impl.child_of_proposal", Case: cs, Expected: mo, Observed: impl})
+		}
+		if impl != "err" {
+			fail("building a Child SA from a proposal with an unsupported transform does not fail", cs, "err", impl)
+		}
+	}
 	return nil
 }
 
